@@ -62,6 +62,9 @@ Definition init_traits : traits := fun _ f => negb (Nat.eqb f 12 || Nat.eqb f 13
 Definition init (npool : nat) : state := mkState init_traits (fun _ _ => []) [] [] npool.
 
 Definition items_field (f : fname) : fname := f + 3.     (* kids -> 6, m -> 7, s -> 8 *)
+(* 15 = kidsI, a List trait declared with comparison_mode=identity (list object: pseudo-field 18): ctrait_prevent_event
+   applies the old == new filter only to traits in equality mode, so re-assigning an equal list IS reported *)
+Definition identity_field (f : fname) : bool := Nat.eqb f 15.
 
 Inductive op :=
 | Observe (k : nat) (r : oid) (g : graph)            (* r.observe(handler k, g) *)
@@ -312,7 +315,8 @@ Definition step (st : state) (o : op) : state * obs :=
       let olds := h x f in
       let old_items := match olds with y :: _ => h y (items_field f) | [] => [] end in
       (* the old value of an unset trait is the (unhooked) default, an empty container *)
-      let prevented := match olds with
+      let prevented := if identity_field f then false else
+                       match olds with
                        | [] => match items with [] => true | _ => false end
                        | _ => cont_equal f old_items items dict_equal
                        end in
@@ -442,7 +446,8 @@ Definition notified (st : state) (o : op) : option (oid * fname) :=
   | SetCont x f items de =>
       let olds := h x f in
       let old_items := match olds with y :: _ => h y (items_field f) | [] => [] end in
-      let prevented := match olds with
+      let prevented := if identity_field f then false else
+                       match olds with
                        | [] => match items with [] => true | _ => false end
                        | _ => cont_equal f old_items items de
                        end in
